@@ -71,15 +71,32 @@ def scenarios(rng, tier, runner):
             if len(f) != 2:
                 out.append(Scenario("specfail-" + s.name, ["T.use " + s.meta["tables"]], {"specfail": r, "orig": s.lines, "re": "spec.reencode %s %s %s %s %s %d" % (tm[1], enc[0], enc[1], ",".join(tm[2:]), enc[2], v)}))
                 continue
-            ls = ["T.use " + s.meta["tables"],
-                  "ds.decode %s 1 %s %s 0 0 %s %s" % (tm[1], f[0], enc[1], ",".join(tm[2:]), f[1])]
             nsub = int(enc[1])
+            if rng.random() < 0.3:
+                # message-level freedoms: optional Section 2 (any length, odd in edition 4), a leading bulletin
+                # header (also one ending in a prefix of the start marker), a message longer than 65535 octets
+                from gen import frame
+                s2 = None
+                r = rng.random()
+                if r < 0.5:
+                    s2 = bytes(rng.randrange(256) for _ in range(rng.choice([0, 1, 2, 5, 8, 31])))
+                elif r < 0.53:
+                    s2 = bytes(66000)
+                hdr = rng.choice([b"", b"", b"\r\r\nIUSC01 CWAO 121200\r\r\n", b"TYPE=BU", b"xxB", b"FORMAT:BUF", b"001\r\r\nISMN20 LOWM 290000 RRB"])
+                msg = frame.frame(int(tm[1]), int(f[0]), nsub, [int(d) for d in tm[2:]], bytes.fromhex(f[1]) if f[1] != "-" else b"", s2=s2, header=hdr)
+                ls = ["T.use " + s.meta["tables"], "ds.decodemsg " + msg.hex()]
+                meta_len = len(msg) - len(hdr)
+            else:
+                ls = ["T.use " + s.meta["tables"],
+                      "ds.decode %s 1 %s %s 0 0 %s %s" % (tm[1], f[0], enc[1], ",".join(tm[2:]), f[1])]
+                meta_len = None
             for k in range(nsub):
                 ls += ["dd.list %d" % k, "dd.vals %d" % k]
             meta = dict(s.meta)
             meta["built_l"] = datasets.subset_views(s, o1, "ss.list")
             meta["built_v"] = datasets.subset_views(s, o1, "ss.vals")
-            meta["variant"] = (int(f[0]) & 64, v % 7)
+            meta["variant"] = (int(f[0]) & 64, v % 7, "msg" if meta_len else "s4")
+            meta["msglen"] = meta_len
             out.append(Scenario("dec-%s-%d" % (s.name, v % 1000), ls, meta))
     return out
 
@@ -95,7 +112,9 @@ def oracle(scn, outs):
     if dec is None:
         return None
     f = dec.split()
-    if f[0] != "ok":
+    if f[0] == "read":
+        f = f[2:]
+    if not f or f[0] != "ok":
         return "a well-formed message was refused: %s" % dec
     if f[1] != "0":
         return "a well-formed message decodes as invalid"
